@@ -189,9 +189,62 @@ func suiteUpsel(r *rng, n int) {
 			}
 		}
 		upstream.Reset(nil)
+		if i == 0 {
+			upselAllDownHistory()
+		}
 		for _, u := range servers {
 			u.stop()
 			u.release()
 		}
 	}
+}
+
+// directed history through the whole request path (responder, cache and proxy middlewares): every server of the
+// upstream is down; three requests for the SAME cacheable URL, one after the other, each get a 5xx promptly, and
+// after the server is back the URL is served again
+func upselAllDownHistory() {
+	ln, _ := net.Listen("tcp", "127.0.0.1:0")
+	addr := ln.Addr().String()
+	ln.Close()
+	u := &upSrv{idx: 0, addr: addr, hold: -1}
+	u.reserve()
+	defer func() { u.stop(); u.release() }()
+	ucfg := []config.UpstreamConfig{{Name: "u1", Servers: []config.UpstreamServerConfig{{Addr: "http://" + addr}}}}
+	p := newPipeline(100, "1s", false, serverOption(), nil, ucfg)
+	// newPipeline installs a scripted upstream; this history needs the REAL proxy and target picker
+	upstream.Reset(nil)
+	upstream.Reset(ucfg)
+	type res struct {
+		code int
+		ms   int64
+	}
+	one := func() res {
+		ch := make(chan res, 1)
+		go func() {
+			t0 := time.Now()
+			w := p.do("GET", "x.test", "/same", nil, nil)
+			ch <- res{w.Code, time.Since(t0).Milliseconds()}
+		}()
+		select {
+		case r := <-ch:
+			return r
+		case <-time.After(3 * time.Second):
+			return res{-1, 3000}
+		}
+	}
+	var out []string
+	for k := 0; k < 3; k++ {
+		r := one()
+		out = append(out, itoa(int64(r.code)), itoa(r.ms))
+	}
+	u.start()
+	if us := upstream.Get("u1"); us != nil {
+		for _, hu := range us.HTTPUpstream.GetUpstreamList() {
+			hu.Healthy()
+		}
+	}
+	r := one()
+	out = append(out, itoa(int64(r.code)), itoa(r.ms))
+	emit(append([]string{"upsel", "alldown"}, out...)...)
+	stat("alldown-histories")
 }
